@@ -1,6 +1,10 @@
 (* C05 — Encoded output carries the same value: decoding what the encoder wrote returns the value
    (model-level round trip), for every well-formed value, up to what name compression may change
    (ASCII case of labels reached through a pointer; order of the SVCB `mandatory` key list). *)
+From DNS Require Import Model.Dec Model.Enc Spec.Names Spec.USize
+  Proofs.NameLayer Proofs.DecBase
+  Proofs.RtPrim Proofs.RtFields Proofs.RtRecord Proofs.RtSpecial Proofs.RtApl Proofs.RtMsg
+  Proofs.C05 Proofs.EncSize Proofs.EncSucceeds.
 From DNS Require Import Spec.Wire Proofs.C05ref Model.Dec Model.Enc Spec.Names
   Proofs.ListN Proofs.NameLayer Proofs.EncTyped
   Proofs.DecBase Proofs.DecNameSound Proofs.SvcbDec Proofs.SvcbRound
@@ -283,3 +287,170 @@ Proof.
   cbv zeta. split; [vm_compute; reflexivity|]. split; [vm_compute; reflexivity|].
   split; [vm_compute; reflexivity|]. eexists. vm_compute. reflexivity.
 Qed.
+
+(* ---------------------------------------------------------------------------------------------
+   encoding succeeds for every well-formed value within the size limit (uncompressed sizes: Spec/USize.v) *)
+(* ================= 1. the message ================= *)
+(* a well-formed message whose uncompressed size fits in 65,535 octets encodes *)
+Theorem C05_encode_succeeds : forall m : dns,
+  dns_wf m = true -> usize_dns m <= 65535 -> exists b, enc_Dns m = Ok b.
+Proof. exact C05_encode_succeeds_proof. Qed.
+Print Assumptions C05_encode_succeeds.
+
+(* without the size hypothesis: the only failure is XLength, and it proves the message too large *)
+Theorem C05_encode_fails_only_by_size : forall m : dns, dns_wf m = true ->
+  (exists b, enc_Dns m = Ok b) \/ (exists k, enc_Dns m = Err (XLength, [k]) /\ 65535 < usize_dns m).
+Proof. exact C05_encode_fails_only_by_size_proof. Qed.
+Print Assumptions C05_encode_fails_only_by_size.
+
+(* the same with the size of the output: never more than the uncompressed size *)
+Theorem C05_encode_total : forall m : dns, dns_wf m = true ->
+  (exists b, enc_Dns m = Ok b /\ lenN b <= usize_dns m) \/
+  (exists k, enc_Dns m = Err (XLength, [k]) /\ 65535 < usize_dns m).
+Proof. exact enc_Dns_total. Qed.
+Print Assumptions C05_encode_total.
+
+Theorem C05_enc_size_le : forall (m : dns) (b : bytes),
+  dns_wf m = true -> enc_Dns m = Ok b -> lenN b <= usize_dns m.
+Proof. exact enc_size_le. Qed.
+Print Assumptions C05_enc_size_le.
+
+Theorem C05_failure_means_oversize : forall (m : dns) (e : err),
+  dns_wf m = true -> enc_Dns m = Err e -> (exists k, e = (XLength, [k])) /\ 65535 < usize_dns m.
+Proof. exact C05_failure_means_oversize_proof. Qed.
+Print Assumptions C05_failure_means_oversize.
+
+
+
+(* ================= 3. elements, from ANY encoder state with the name invariant ================= *)
+Theorem C05_enc_rr_size_le : forall (r : rr) (st : est) (mask : list bool) (st' : est),
+  rr_wf r = true -> InvM st mask -> enc_rr r st = EOk tt st' ->
+  lenN (e_buf st') <= lenN (e_buf st) + usize_rr r.
+Proof. exact enc_rr_size_le. Qed.
+Print Assumptions C05_enc_rr_size_le.
+
+Theorem C05_enc_rr_fails_only_by_size : forall (r : rr) (st : est) (mask : list bool),
+  rr_wf r = true -> InvM st mask ->
+  (exists st', enc_rr r st = EOk tt st') \/
+  (exists k, enc_rr r st = EErr (XLength, [k]) /\ 65535 < lenN (e_buf st) + usize_rr r).
+Proof. exact enc_rr_fails_only_by_size. Qed.
+Print Assumptions C05_enc_rr_fails_only_by_size.
+
+Theorem C05_enc_rr_succeeds : forall (r : rr) (st : est) (mask : list bool),
+  rr_wf r = true -> InvM st mask -> lenN (e_buf st) + usize_rr r <= 65535 ->
+  exists st', enc_rr r st = EOk tt st'.
+Proof. exact enc_rr_succeeds. Qed.
+Print Assumptions C05_enc_rr_succeeds.
+
+Theorem C05_enc_question_size_le : forall (q : question) (st : est) (mask : list bool) (st' : est),
+  question_wf q = true -> InvM st mask -> enc_question q st = EOk tt st' ->
+  lenN (e_buf st') <= lenN (e_buf st) + usize_question q.
+Proof. exact enc_question_size_le. Qed.
+Print Assumptions C05_enc_question_size_le.
+
+Theorem C05_enc_question_fails_only_by_size : forall (q : question) (st : est) (mask : list bool),
+  question_wf q = true -> InvM st mask ->
+  (exists st', enc_question q st = EOk tt st') \/
+  (exists k, enc_question q st = EErr (XLength, [k]) /\ 65535 < lenN (e_buf st) + usize_question q).
+Proof. exact enc_question_fails_only_by_size. Qed.
+Print Assumptions C05_enc_question_fails_only_by_size.
+
+Theorem C05_enc_name_size_le : forall (n : name) (st : est) (mask : list bool) (st' : est),
+  name_wf n = true -> InvM st mask -> enc_domain_name n st = EOk tt st' ->
+  lenN (e_buf st') <= lenN (e_buf st) + usize_name n.
+Proof. exact enc_name_size_le. Qed.
+Print Assumptions C05_enc_name_size_le.
+
+Theorem C05_enc_section_size_le : forall (l : list rr) (st : est) (mask : list bool) (st' : est),
+  forallb rr_wf l = true -> InvM st mask -> emap enc_rr l st = EOk tt st' ->
+  lenN (e_buf st') <= lenN (e_buf st) + sumN (map usize_rr l).
+Proof. exact enc_section_size_le. Qed.
+Print Assumptions C05_enc_section_size_le.
+
+(* the calculus behind all of the above: [encT enc U] — from every state with the invariant, [enc]
+   succeeds appending at most U octets, or fails with XLength and 65535 < buffer length + U *)
+Theorem C05_encT_rr : forall r : rr, rr_wf r = true -> encT (enc_rr r) (usize_rr r).
+Proof. exact encT_rr. Qed.
+Print Assumptions C05_encT_rr.
+
+(* ================= 4. non-vacuity ================= *)
+Definition L_example_sz : label := [101;120;97;109;112;108;101].
+Definition L_org_sz : label := [111;114;103].
+Definition L_www_sz : label := [119;119;119].
+Definition L_mail_sz : label := [109;97;105;108].
+Definition fl0 : flags :=
+  {| f_qr := true; f_opcode := 0; f_aa := true; f_tc := false; f_rd := false;
+     f_ra := false; f_ad := false; f_cd := false; f_rcode := 0 |}.
+
+(* nothing compresses (all names distinct, no common suffix): TXT, A, OPT with a client-subnet option
+   whose /20 address is cut to 3 octets, a cookie and padding — usize is exactly the output length *)
+Definition m_plain : dns :=
+  {| m_id := 4660; m_flags := fl0;
+     m_qd := [ {| q_name := [L_example_sz; L_org_sz]; q_type := 16; q_class := 1 |} ];
+     m_an := [ {| r_type := 16; r_name := [L_www_sz]; r_class := 1; r_ttl := 60;
+                  r_data := RFields [VStrs [[104;105]; [1;2;3]]] |};
+               {| r_type := 1; r_name := [L_mail_sz]; r_class := 1; r_ttl := 60;
+                  r_data := RFields [VN 3232235777] |} ];
+     m_ns := [];
+     m_ar := [ {| r_type := 41; r_name := []; r_class := 0; r_ttl := 0;
+                  r_data := ROpt 1232 0 0 true
+                    [OEcs {| e_src := 20; e_scope := 0; e_addr := {| a_fam := 1; a_oct := [192;168;16;0] |} |};
+                     OCookie {| c_client := [1;2;3;4;5;6;7;8]; c_server := None |};
+                     OPadding 5] |} ] |}.
+Example C05succ_example_exact :
+  dns_wf m_plain = true /\ usize_dns m_plain = 114 /\
+  exists b, enc_Dns m_plain = Ok b /\ lenN b = usize_dns m_plain.
+Proof. split; [vm_compute; reflexivity|]. split; [vm_compute; reflexivity|]. eexists. split; vm_compute; reflexivity. Qed.
+
+(* HTTPS with seven parameters and an APL item: again exact *)
+Definition m_svcb : dns :=
+  {| m_id := 1; m_flags := fl0; m_qd := [];
+     m_an := [ {| r_type := 65; r_name := [L_www_sz]; r_class := 1; r_ttl := 0;
+                  r_data := RSvcb 1 [L_mail_sz]
+                    [PMandatory [4;1]; PAlpn [[104;50]; [104;51]]; PPort 443; PIpv4Hint [1;2]; PEch [1;2;3];
+                     PIpv6Hint [repeat 0 (N.to_nat 16)]; PPrivate 700 [9;9]] |};
+               {| r_type := 42; r_name := [L_org_sz]; r_class := 1; r_ttl := 0;
+                  r_data := RApl [ {| i_prefix := 20; i_neg := true;
+                                      i_addr := {| a_fam := 1; a_oct := [192;168;16;0] |} |} ] |} ];
+     m_ns := []; m_ar := [] |}.
+Example C05succ_example_exact_svcb :
+  dns_wf m_svcb = true /\ usize_dns m_svcb = 128 /\
+  exists b, enc_Dns m_svcb = Ok b /\ lenN b = usize_dns m_svcb.
+Proof. split; [vm_compute; reflexivity|]. split; [vm_compute; reflexivity|]. eexists. split; vm_compute; reflexivity. Qed.
+
+(* two names compressed against the question: the output is shorter than usize *)
+Definition m_comp : dns :=
+  {| m_id := 4660; m_flags := fl0;
+     m_qd := [ {| q_name := [L_example_sz; L_org_sz]; q_type := 15; q_class := 1 |} ];
+     m_an := [ {| r_type := 15; r_name := [L_www_sz; L_example_sz; L_org_sz]; r_class := 1; r_ttl := 60;
+                  r_data := RFields [VN 10; VName [L_mail_sz; L_example_sz; L_org_sz]] |} ];
+     m_ns := []; m_ar := [] |}.
+Example C05succ_example_compressed :
+  dns_wf m_comp = true /\ usize_dns m_comp = 76 /\
+  exists b, enc_Dns m_comp = Ok b /\ lenN b = 54.
+Proof. split; [vm_compute; reflexivity|]. split; [vm_compute; reflexivity|]. eexists. split; vm_compute; reflexivity. Qed.
+
+(* two NULL records of 40,000 octets each: well formed, usize 80,043 > 65,535, and the encoder reports
+   XLength with the length the buffer had reached at the closing range check *)
+Definition big : bytes := repeat 0 (N.to_nat 40000).
+Definition m_big : dns :=
+  {| m_id := 1; m_flags := fl0; m_qd := [];
+     m_an := [ {| r_type := 10; r_name := [L_www_sz]; r_class := 1; r_ttl := 0; r_data := RFields [VBytes big] |};
+               {| r_type := 10; r_name := [L_mail_sz]; r_class := 1; r_ttl := 0; r_data := RFields [VBytes big] |} ];
+     m_ns := []; m_ar := [] |}.
+Example C05succ_example_oversize :
+  dns_wf m_big = true /\ usize_dns m_big = 80043 /\ enc_Dns m_big = Err (XLength, [80043]).
+Proof. split; [vm_compute; reflexivity|]. split; vm_compute; reflexivity. Qed.
+
+(* the size hypothesis is sufficient, not necessary: 300 A records owned by the same 253-octet name have
+   usize 80,112, but every owner after the first is a two-octet pointer and the message encodes *)
+Definition long_label (c : N) : label := repeat c (N.to_nat 62).
+Definition long_name : name := [long_label 97; long_label 98; long_label 99; long_label 100].
+Definition m_many : dns :=
+  {| m_id := 1; m_flags := fl0; m_qd := [];
+     m_an := repeat {| r_type := 1; r_name := long_name; r_class := 1; r_ttl := 0; r_data := RFields [VN 1] |}
+                    (N.to_nat 300);
+     m_ns := []; m_ar := [] |}.
+Example C05succ_example_compression_rescues :
+  dns_wf m_many = true /\ usize_dns m_many = 80112 /\ exists b, enc_Dns m_many = Ok b /\ lenN b = 5063.
+Proof. split; [vm_compute; reflexivity|]. split; [vm_compute; reflexivity|]. eexists. split; vm_compute; reflexivity. Qed.
